@@ -7,4 +7,5 @@ import (
 	_ "verif/h/c07"
 	_ "verif/h/c18"
 	_ "verif/h/c20"
+	_ "verif/h/pubsub"
 )
